@@ -553,7 +553,21 @@ def c14(ck):
     except Broken as b:
         ck.broken(b)
         return ck.finish(trusted=TB_COMMON, rule="build broke")
-    base = list(FAULT_CORPUS) + [gen.rand_session(rng, 12) for _ in range(150 if thorough else 30)]
+    declgen, sets = ensure_decls(ck)
+    def dl(k, line, cap=60):
+        return "%d 64 1 d%d b:%s;b:0d" % (cap, k, gen.hx(line.encode("utf-8")))
+    decl_corpus = [dl(1, "help"), dl(1, "help aaa"), dl(1, "help bbb"), dl(1, "help status"), dl(1, "help nope"), dl(1, "bbb"), dl(1, "nope"),
+                   dl(2, "help test"), dl(2, "help base1 get cmd"), dl(2, "base1 -l 3 get -h"), dl(2, "test a"), dl(2, "test -j t a b"),
+                   dl(2, "base1 --level 300 set x"), dl(2, "base2 num 5 xy"), dl(2, "test a b c d"), dl(2, "test --nope"), dl(2, "test -Z"),
+                   dl(0, "ge") + ";b:09", dl(3, "help опция")]
+    for k, s_ in enumerate(sets[4:], start=4):
+        if thorough or k < 8:
+            decl_corpus.append(dl(k, "help"))
+            nm = declgen.all_names(s_)
+            if nm:
+                decl_corpus.append(dl(k, "help " + declgen.q(nm[-1])))
+                decl_corpus.append(dl(k, declgen.rand_decl_line(rng, s_)))
+    base = list(FAULT_CORPUS) + decl_corpus + [gen.rand_session(rng, 12) for _ in range(150 if thorough else 30)]
     base_out = core.run_engine(hb, "ses", base)
     cases = []
     nofault = {}
@@ -597,7 +611,7 @@ def c14(ck):
             return "CLI not usable after the failure: later Enter returned error with a working sink"
         typed = f["text"]
         if last["calls"] != "-":
-            name = last["calls"].split("(")[0]
+            name = last["calls"].split("(")[0].split("{")[0]
             raw = bytes.fromhex(name) if name != "." else b""
             if b"\x00" in raw:
                 return "later Enter dispatched a command name containing NUL (tokenised buffer leaked): " + last["calls"]
@@ -755,6 +769,34 @@ def c11(ck):
     # keep only cases whose request equals the word the candidates were computed for (decided by the implementation's own request output)
     ck.run_family(Family("editor-completion", "ed", cases, oracle=oracle, shrink=None,
                          nontrivial=lambda c, o: not o.split(" ")[-2].startswith("N:")))
+    # derived command sets through the whole Cli: prefix of a name, Tab, at buffer sizes from exactly full to roomy
+    declgen, sets = ensure_decls(ck)
+    dcases, dspec_in = [], []
+    for k, s_ in enumerate(sets):
+        vis = declgen.visible_names(s_)
+        for _ in range(60 if thorough else 25):
+            pool = vis + ["help"]
+            base = rng.choice(pool) if pool and rng.randrange(8) else "zz"
+            w = base[:rng.randrange(1, len(base) + 1)]
+            lead = " " * rng.choice([0, 0, 1])
+            text = (lead + w).encode("utf-8")
+            capx = len(text) + rng.choice([0, 1, 2, 3, 5, 8, 30])
+            dcases.append("%d 16 1 d%d b:%s;b:09" % (capx, k, gen.hx(text)))
+            dspec_in.append("%d %s %s %d" % (capx, ",".join(gen.hx(x.encode("utf-8")) for x in vis) if vis else "-", gen.hx(text), len((lead + w))))
+    dwant = dict(zip(dcases, drv_run("acspec", dspec_in)))
+
+    def oracle_d(case, io):
+        st = parse_steps(io)
+        if st is None:
+            return "crash / malformed output: " + io[:300]
+        got = "%s:%s" % (st[-1]["text"], st[-1]["cur"])
+        if got != dwant[case]:
+            return "completion spec gives %s after Tab, implementation has %s" % (dwant[case], got)
+        return None
+
+    ck.run_family(Family("derived-tab", "ses", dcases, oracle=oracle_d, shrink=None,
+                         project=lambda o: [(s_["text"], s_["cur"]) for s_ in (parse_steps(o) or [])] or o,
+                         nontrivial=lambda c, o: True))
     m = 6000 if thorough else 1200
     ses = [gen.rand_session(rng, 30, api=False) for _ in range(m)]
     ck.run_family(Family("session-tab", "ses", ses, shrink=core.shrink_ops_line(4), decisive=False,
@@ -766,4 +808,252 @@ def c11(ck):
                      "(built-in help candidate). non-trivial = a completion request was formed")
 
 
-PROPS = {"C04": c04, "C02": c02, "C07": c07, "C08": c08, "C13": c13, "C05": c05, "C10": c10, "C17": c17, "C06": c06, "C15": c15, "C14": c14, "C01": c01, "C03": c03, "C11": c11}
+# ------------------------------------------------------------------ derived command sets (C09, C11, C12, C14)
+def ensure_decls(ck):
+    """generate the declaration sets for this seed/tier, write harness/src/gen_decls.rs and build/decls.txt"""
+    import random, sys
+    sys.path.insert(0, os.path.join(core.ROOT, "gen"))
+    import declgen
+    n = 40 if ck.tier == "thorough" else 12
+    sets = declgen.generate(random.Random(ck.seed * 7919 + 17), n)
+    declgen.write_all(sets, os.path.join(core.HARNESS_DIR, "src", "gen_decls.rs"), os.path.join(core.BUILD, "decls.txt"))
+    os.environ["VERIF_DECLS"] = os.path.join(core.BUILD, "decls.txt")
+    ck.cov["declaration_sets"] = len(sets)
+    return declgen, sets
+
+
+def lines_to_session(k, lines, cap=80, hcap=64):
+    return "%d %d 1 d%d %s" % (cap, hcap, k, ";".join("b:" + gen.hx(l.encode("utf-8")) + ";b:0d" for l in lines))
+
+
+def sink_text(step):
+    if step["sink"] == "-":
+        return b""
+    return b"".join(bytes.fromhex(o[1:]) for o in step["sink"].split(",") if o.startswith("W") and o != "W.")
+
+
+def enter_steps(case, out):
+    """(line, step) for every Enter of a session built by lines_to_session"""
+    st = parse_steps(out)
+    if st is None:
+        return None
+    ops = case.split(" ", 4)[4].split(";")
+    res, k = [], 1
+    line = None
+    for op in ops:
+        n = len(op[2:]) // 2
+        if op == "b:0d":
+            res.append((line, st[k] if k < len(st) else None))
+        else:
+            line = bytes.fromhex(op[2:]).decode("utf-8")
+        k += n
+    return res
+
+
+def c09(ck):
+    rng = ck.rng
+    thorough = ck.tier == "thorough"
+    declgen, sets = ensure_decls(ck)
+    per = 120 if thorough else 40
+    cases = []
+    for k, s_ in enumerate(sets):
+        lines = [declgen.rand_decl_line(rng, s_) for _ in range(per)]
+        for i in range(0, len(lines), 8):
+            cases.append(lines_to_session(k, lines[i:i + 8], cap=120))
+
+    def proj(o):
+        st = parse_steps(o)
+        if st is None:
+            return o
+        return [(x["r"], x["calls"], x["sink"].replace(",F", "").replace("F,", "")) for x in st if x["calls"] != "-" or "0d0a" in x["sink"]]
+
+    def oracle(case, io):
+        es = enter_steps(case, io)
+        if es is None:
+            return "crash / malformed output: " + io[:300]
+        for line, st in es:
+            if st is None:
+                return "missing step"
+            txt = sink_text(st)
+            n_err = txt.count(b"error: ")
+            if st["calls"] != "-" and n_err:
+                return "line `%s`: handler was called AND an error line was printed" % line
+            if "+" in st["calls"]:
+                return "line `%s`: handler called more than once" % line
+        return None
+
+    ck.run_family(Family("derived-parse-sessions", "ses", cases, project=proj, oracle=oracle, shrink=core.shrink_ops_line(4),
+                         nontrivial=lambda c, o: True))
+    return ck.finish(trusted=TB_COMMON + ["gen/declgen.py: renders one abstract declaration to Rust source (compiled with the repository's macros) and to the model's declaration term; "
+                                          "'all declarations' is sampled: corpus sets + random sets from the attribute space each run"],
+                     rule="for every generated declaration set (unit/struct/tuple-subcommand variants; positional/option/flag fields of &str,u8,bool,char; Option; default_value; default_value_t; "
+                     "custom short/long/value_name/name; nested sub-commands; groups; hidden groups; multi-byte names) lines are generated from the declaration: valid invocations with "
+                     "options anywhere, each error kind (unknown command, unexpected argument/option, unparsable value, missing argument, missing option value), help-shaped lines; typed "
+                     "value (canonical field-by-field rendering) or error line compared with the model of the emitted parser. Every session counts as non-trivial")
+
+
+def c12(ck):
+    rng = ck.rng
+    thorough = ck.tier == "thorough"
+    declgen, sets = ensure_decls(ck)
+    cases, meta = [], {}
+    for k, s_ in enumerate(sets):
+        vis = declgen.visible_names(s_)
+        allv = declgen.all_names(s_)
+        lines = ["help"]
+        for nm in allv:
+            lines.append("help " + declgen.q(nm))
+            lines.append(declgen.q(nm) + " -h")
+        lines.append("help nope")
+        for _ in range(40 if thorough else 12):
+            e = rng.choice(declgen.set_enums(s_))
+            t = declgen.rand_cmd_tokens(rng, e)
+            pos = rng.randrange(1, len(t) + 1)
+            if "--" in t[:pos]:
+                continue
+            t = t[:pos] + [rng.choice(["-h", "--help"])] + t[pos:]
+            lines.append(" ".join(declgen.q(x) for x in t))
+            t2 = declgen.rand_cmd_tokens(rng, e)
+            lines.append("help " + " ".join(declgen.q(x) for x in t2[:rng.randrange(1, len(t2) + 1)]))
+        for i in range(0, len(lines), 8):
+            c = lines_to_session(k, lines[i:i + 8], cap=120)
+            cases.append(c)
+            meta[c] = (vis, [n for n in allv if n not in vis])
+
+    def proj(o):
+        st = parse_steps(o)
+        if st is None:
+            return o
+        return [(x["r"], x["calls"], x["sink"].replace(",F", "").replace("F,", "")) for x in st if x["calls"] != "-" or "0d0a" in x["sink"]]
+
+    def oracle(case, io):
+        es = enter_steps(case, io)
+        if es is None:
+            return "crash / malformed output: " + io[:300]
+        vis, hid = meta[case]
+        for line, st in es:
+            if st is None:
+                return "missing step"
+            if st["calls"] != "-":
+                return "help-shaped line `%s` reached the handler: %s" % (line, st["calls"])
+            if line == "help":
+                txt = sink_text(st).decode("utf-8", "replace").split("\r\n")
+                firsts = [l.split()[0] for l in txt if l.startswith("  ") and l.split()]
+                for nm in vis:
+                    if " " in nm:
+                        continue
+                    if firsts.count(nm) != 1 and vis.count(nm) == 1:
+                        return "`help` lists command `%s` %d times (expected exactly once)" % (nm, firsts.count(nm))
+                for nm in hid:
+                    if nm in firsts and nm not in vis:
+                        return "`help` lists the command `%s` of a hidden group" % nm
+        return None
+
+    ck.run_family(Family("derived-help-sessions", "ses", cases, project=proj, oracle=oracle, shrink=core.shrink_ops_line(4),
+                         nontrivial=lambda c, o: True))
+    return ck.finish(trusted=TB_COMMON + ["gen/declgen.py (declarations sampled: corpus + random sets each run)"],
+                     rule="for every generated declaration set: `help`, `help <name>` and `<name> -h` for every declared name (hidden ones too), `help nope`, help options inserted at every "
+                     "position of generated invocations, `help` followed by nested sub-command paths; direct oracle: no help-shaped line reaches the handler, `help` lists every visible "
+                     "command exactly once and no hidden one; full help text compared with the model of the emitted help code. Every session counts as non-trivial")
+
+
+# ------------------------------------------------------------------ C16 features
+def c16(ck):
+    import concurrent.futures as cf
+    rng = ck.rng
+    thorough = ck.tier == "thorough"
+    declgen, sets = ensure_decls(ck)
+    fsets = list(core.FEATSETS.keys())
+    try:
+        with cf.ThreadPoolExecutor(max_workers=8) as ex:
+            bins = dict(zip(fsets, ex.map(lambda f: core.build_harness(f, "debug"), fsets)))
+        drv = core.build_driver()
+    except Broken as b:
+        ck.broken(b)
+        return ck.finish(trusted=TB_COMMON, rule="build broke")
+    ck._bin.update({(f, "debug"): b for f, b in bins.items()})
+    ck.cov["feature_sets_built"] = fsets
+    n = 2500 if thorough else 500
+    ses = [gen.rand_session(rng, rng.choice([15, 35])) for _ in range(n)]
+    # sessions with help-shaped lines and Tab / Up / Down at known places
+    for line in ["help", "help echo", "echo -h", "echo --help a", "x -vh", "he", "quiet -- -h"]:
+        ses.append("24 32 1 raw b:%s;b:09;b:0d;b:1b5b41;b:1b5b42;b:0d" % gen.hx(line.encode()))
+    for k, s_ in enumerate(sets):
+        if k < (len(sets) if thorough else 8):
+            lines = [declgen.rand_decl_line(rng, s_) for _ in range(6)] + ["help", declgen.q((declgen.all_names(s_) or ["x"])[0]) + " --help"]
+            ses.append(lines_to_session(k, lines, cap=100))
+            nm = (declgen.visible_names(s_) or ["x"])[0]
+            ses.append("30 32 1 d%d b:%s;b:09;b:0d;b:1b5b41" % (k, gen.hx(nm[:1].encode("utf-8"))))
+    base = core.run_engine(bins["hac"], "ses", ses)
+
+    def uses(case):
+        ops = case.split(" ", 4)[4]
+        return {"h": "1b5b41" in ops or "1b5b42" in ops, "a": ";b:09" in ops or ops.startswith("b:09") or "09" in ops,
+                "c": True}  # help requests cannot be recognised syntactically here; equivalence is only claimed off history / autocomplete
+
+    for fs in fsets:
+        has = lambda ch: fs != "none" and ch in fs
+        impl = core.run_engine(bins[fs], "ses", ses)
+        model = core.run_engine(drv + " ses " + fs if False else drv, "ses", ses, is_impl=False) if False else None
+        # model configured alike
+        import subprocess
+        model = run_model_featset(drv, ses, fs)
+        bad = 0
+        nontriv = 0
+        for c, io, mo, bo in zip(ses, impl, model, base):
+            st = parse_steps(io)
+            reason = None
+            if st is None:
+                reason = ("crash", "implementation crashed under feature set %s: %s" % (fs, io[:200]))
+            else:
+                mst = parse_steps(mo)
+                pj = lambda S: [(x["r"], x["text"], x["cur"], x["calls"], x["sink"].replace(",F", "").replace("F,", "")) for x in S]
+                if mst is None or pj(st) != pj(mst):
+                    reason = ("diff", "feature set %s: implementation and model (configured alike) differ" % fs)
+                # direct oracles
+                u = uses(c)
+                if reason is None and not has("h"):
+                    # Up / Down must do nothing: find the steps right after the arrow's final byte
+                    k = 1
+                    for op in c.split(" ", 4)[4].split(";"):
+                        if op.startswith("b:"):
+                            nb = len(op[2:]) // 2
+                            if op[2:] in ("1b5b41", "1b5b42"):
+                                s_ = st[k + 2]
+                                prev = st[k - 1] if k >= 1 else None
+                                if s_["sink"] != "-" or (prev and (s_["text"], s_["cur"]) != (prev["text"], prev["cur"])):
+                                    reason = ("oracle", "history off: Up/Down changed the line or wrote to the terminal (step %d)" % (k + 2))
+                            k += nb
+                        elif op[0] in "wp":
+                            k += 1
+                if reason is None and not has("h") and not u["h"] or reason is None and not has("a") and not u["a"]:
+                    pass
+                if reason is None and ((has("a") or not u["a"]) and (has("h") or not u["h"]) and has("c")):
+                    # nothing of the disabled facilities is used: behaviour must equal the full build
+                    bst = parse_steps(bo)
+                    if bst is not None and [(x["r"], x["text"], x["cur"], x["calls"], x["sink"]) for x in st] != [(x["r"], x["text"], x["cur"], x["calls"], x["sink"]) for x in bst]:
+                        reason = ("oracle", "feature set %s differs from the full build on a session that does not use the disabled facility" % fs)
+                nontriv += 1
+            if reason and bad < 2:
+                bad += 1
+                ck.report("features-" + fs, reason[0], reason[1], {"case": c, "featset": fs, "implementation_output": io, "model_output": mo,
+                                                                    "replay_cmd": "echo '%s' | build/target-%s/debug/verif-harness ses" % (c, fs)},
+                          decisive=reason[0] != "diff")
+        ck.count("features-" + fs, len(ses), nontriv, sample=ses[0][:200])
+    return ck.finish(trusted=TB_COMMON, rule="the harness is built under all eight subsets of {history, autocomplete, help} (macros on); the same sessions (random raw sessions, help-shaped "
+                     "lines, Tab, Up/Down, derived command sets with --help inside invocations) run on each build and on the model configured with the same feature record; direct oracles: "
+                     "history off => Up/Down change nothing and write nothing; a session not using a disabled facility behaves exactly as on the full build")
+
+
+def run_model_featset(drv, ses, fs):
+    import subprocess
+    p = subprocess.run([drv, "ses", fs], input="\n".join(ses) + "\n", capture_output=True, text=True)
+    out = p.stdout.split("\n")
+    if out and out[-1] == "":
+        out.pop()
+    if len(out) != len(ses):
+        raise Broken("model driver failed under feature set " + fs, p.stderr[-2000:])
+    return out
+
+
+PROPS = {"C04": c04, "C02": c02, "C07": c07, "C08": c08, "C13": c13, "C05": c05, "C10": c10, "C17": c17, "C06": c06, "C15": c15, "C14": c14, "C01": c01, "C03": c03, "C11": c11, "C09": c09, "C12": c12, "C16": c16}
